@@ -22,4 +22,19 @@ for lvl in (1, 2, 3):
     g.line("u").name = "*"
     if g.names != ["X"]:
         bad += 1; print("FAIL optional", lvl, g.names)
+# ... at every level, for GFA1 segments and paths too, and for None (5d: the rename is refused, the Gfa is unchanged)
+for lvl in (0, 1, 2, 3):
+    for ver, lines, who in (("gfa2", ["S\tX\t10\t*", "E\te\tX-\tX+\t0\t5\t0\t10$\t*"], "X"),
+                            ("gfa1", ["S\tX\t*", "L\tX\t+\tX\t-\t*"], "X"),
+                            ("gfa1", ["S\tX\t*", "S\tY\t*", "L\tX\t+\tY\t-\t*", "P\tp\tX+,Y-\t*"], "p")):
+        for val in ("*", None):
+            g = gfapy.Gfa(lines, version=ver, vlevel=lvl)
+            before = str(g)
+            try:
+                g.line(who).name = val
+                bad += 1; print("FAIL renamed", lvl, ver, who, repr(val), g.names)
+            except gfapy.Error:
+                pass
+            if str(g) != before or not all(isinstance(n, str) for n in g.names):
+                bad += 1; print("FAIL state", lvl, ver, who, repr(val), g.names)
 sys.exit(1 if bad else 0)
